@@ -327,6 +327,36 @@ pub fn type_check_rec<'a>(
                 *borrowed_variables_added += 1;
             }
 
+            // Check that the annotations are types.
+            for (_, annotation, _) in definitions {
+                // Temporarily borrow from the scope guard.
+                let mut guard = context_cell.borrow_mut();
+                let ((borrowed_typing_context, borrowed_definitions_context), _) = &mut (*guard);
+
+                // Infer the type of the annotation.
+                let (annotation, annotation_type) = type_check_rec(
+                    source_path,
+                    source_contents,
+                    annotation,
+                    borrowed_typing_context,
+                    borrowed_definitions_context,
+                    errors,
+                );
+
+                // Check that the type of the annotation is the type of all types.
+                if !unify(&annotation_type, &type_term, borrowed_definitions_context) {
+                    errors.push(throw::<Error>(
+                        "This is not a type:",
+                        source_path,
+                        annotation
+                            .source_range
+                            .map(|source_range| listing(source_contents, source_range))
+                            .as_deref(),
+                        None,
+                    ));
+                }
+            }
+
             // Infer/check the types of the definitions.
             let definitions: Vec<_> = definitions
                 .iter()
